@@ -32,7 +32,7 @@ def mixed_ops(rng, n):
                 d = "".join(gens.DIGITS[rng.randrange(r)] for _ in range(nd))
                 pt = rng.randint(0, nd)
                 q = rng.randint(-40, 40) if rng.random() < 0.7 else rng.randint(-1200, 1200)
-                e = "p" if r >= 15 else "e"
+                e = "^" if r > 25 else ("p" if r >= 15 else "e")
                 s = "%s.%s%s%s" % (d[:pt], d[pt:], e, gens.exp_str(q, er))
                 if rng.random() < 0.3:
                     s = d + e + gens.exp_str(q, er)
